@@ -63,6 +63,9 @@ type RawCase struct {
 	// widths of the varints the raw peer writes (see varintWidth in rawlib_test.go); 0 / absent: all minimal
 	VSeed uint64 `json:"vseed,omitempty"`
 	VDens int    `json:"vdens,omitempty"`
+	// further unidirectional streams the (otherwise conforming) raw peer opens: QPACK encoder / decoder, unknown types
+	// (see UniOpen in rawlib_test.go); absent: only the control stream, as before
+	XUni []UniOpen `json:"xuni,omitempty"`
 }
 
 // genVarintEnc draws the varint-encoding dimension: density 0 (all minimal, also the shrink target) .. 3 (every
@@ -214,6 +217,7 @@ func genRawCase(t *rapid.T) RawCase {
 		c.DeclT = rapid.SampledFrom([]string{"", "valid", "valid", "invalid", "prefix"}).Draw(t, "declt")
 	}
 	c.VSeed, c.VDens = genVarintEnc(t)
+	c.XUni = genExtraUni(t)
 	return c
 }
 
@@ -381,7 +385,10 @@ func runRaw(c RawCase, rec recorder) *vf.Verdict {
 	var v *vf.Verdict
 	setVarintEnc(c.VSeed, c.VDens)
 	defer setVarintEnc(0, 0)
+	setExtraUni(c.XUni)
+	defer setExtraUni(nil)
 	rec.Class(fmt.Sprintf("varint-density:%d", c.VDens))
+	rec.Class("extra-uni:" + extraUniClass(c.XUni))
 	sim.Bubble(curT, 40*time.Second, func() {
 		switch c.Scn + "/" + c.Side {
 		case "frames/client":
@@ -404,6 +411,7 @@ func runRaw(c RawCase, rec recorder) *vf.Verdict {
 			v = vf.Bad("C18/leak/goroutines", "%d goroutines still alive 40 s (virtual) after shutdown:\n%s", rep.Count, rep.Dump)
 		}
 	})
+	noteExtraUni(v, c.XUni)
 	return v
 }
 
